@@ -413,6 +413,55 @@ Proof.
       match type of U with match ?x with Ok _ => _ | Raise _ => _ end = _ => destruct x; [|discriminate] end.
       inversion U; subst. cbn [i_H]. split; [reflexivity|]. intros; discriminate.
 Qed.
+
+(* ... and the merged reference entropy, in the same way *)
+Theorem update_S_same_Tref self other new :
+  updR self other false = (new, None) -> i_Tref other = i_Tref self ->
+  (forall pts rg H S T c, construct (K:=Rops) pts rg H S T = Ok c -> 0 < r_lo c) ->
+  i_S new = match i_S other with Some s => Some s | None => i_S self end
+  /\ (forall s s0, i_S other = Some s -> i_S self = Some s0 -> isclose s s0 = true).
+Proof.
+  intros U ET Hpos. unfold corr_update in U.
+  destruct (match i_tab other with [] => _ | _ => _ end) as [tab|e1]; [|discriminate].
+  destruct (i_S other) as [s|] eqn:ESo.
+  - (* other gives S *)
+    assert (B : isSome (i_H other) || isSome (Some s) = true) by (destruct (i_H other); reflexivity).
+    rewrite B in U. clear B.
+    set (test := Build_inc (K:=Rops) (i_H other) (Some s) tab (i_Tref other) (range_union (K:=Rops) (i_range self) (i_range other))) in *.
+    destruct (inc_setup test) as [r|e2] eqn:ES; [|discriminate].
+    assert (NS : ev_val (inc_s (K:=Rops) quadS lnrR test r (i_Tref self)) = Ok s).
+    { unfold inc_s. cbn [i_S test]. rewrite <- ET.
+      destruct r as [c|].
+      - unfold inc_setup in ES. cbn [i_range i_tab i_H i_S i_Tref test dflt] in ES.
+        assert (C : construct (K:=Rops) tab (range_union (K:=Rops) (i_range self) (i_range other)) (dflt (K:=Rops) (i_H other)) s (i_Tref other) = Ok c).
+        { destruct (range_union (K:=Rops) (i_range self) (i_range other)) as [[lo hi]|]; cbn [bind] in ES;
+            [destruct (nltb Rops hi lo); cbn [bind] in ES; [discriminate|]|];
+            (destruct tab; [discriminate|]);
+            match type of ES with match ?x with _ => _ end = _ => destruct x eqn:EC; inversion ES; subst; reflexivity end. }
+        rewrite (s_at_Tref quadS quadS_refl _ _ _ _ _ _ C (Hpos _ _ _ _ _ _ C)). reflexivity.
+      - cbn [i_Tref test]. unfold neqb, Rops. rewrite Reqb_refl. reflexivity. }
+    cbv zeta in U.
+    match type of U with (match bind ?x _ with Ok _ => _ | Raise _ => _ end) = _ => destruct x as [Hv|e3]; cbn [bind] in U; [|discriminate] end.
+    rewrite NS in U. cbn [bind negb andb] in U.
+    destruct (i_S self) as [s0|] eqn:ES1.
+    + destruct (isclose s s0) eqn:EC; cbn [negb bind] in U; [|discriminate].
+      match type of U with match ?x with Ok _ => _ | Raise _ => _ end = _ => destruct x; [|discriminate] end.
+      inversion U; subst. cbn [i_S]. split; [reflexivity|].
+      intros s' s0' E1 E2. inversion E1; inversion E2; subst. exact EC.
+    + cbn [bind] in U.
+      match type of U with match ?x with Ok _ => _ | Raise _ => _ end = _ => destruct x; [|discriminate] end.
+      inversion U; subst. cbn [i_S]. split; [reflexivity|]. intros; discriminate.
+  - (* other gives no S *)
+    destruct (i_H other) as [h|] eqn:EHo.
+    + cbn [isSome orb] in U. cbv zeta in U.
+      match type of U with context [inc_setup ?t] => destruct (inc_setup t) as [r|e2] eqn:ES; [|discriminate] end.
+      match type of U with (match bind ?x _ with Ok _ => _ | Raise _ => _ end) = _ => destruct x as [Hv|e3]; cbn [bind] in U; [|discriminate] end.
+      match type of U with match ?x with Ok _ => _ | Raise _ => _ end = _ => destruct x; [|discriminate] end.
+      inversion U; subst. cbn [i_S]. split; [reflexivity|]. intros; discriminate.
+    + cbn [isSome orb] in U.
+      match type of U with match ?x with Ok _ => _ | Raise _ => _ end = _ => destruct x; [|discriminate] end.
+      inversion U; subst. cbn [i_S]. split; [reflexivity|]. intros; discriminate.
+Qed.
 End Refs.
 
 (* ---------- "merging the same data twice changes nothing" ---------- *)
